@@ -1290,16 +1290,33 @@ func (g *gen) mkDVE(st sm.State) types.Evidence {
 	return &types.DuplicateVoteEvidence{VoteA: a, VoteB: b, TotalVotingPower: 10 + int64(r.Intn(100)), ValidatorPower: 1 + int64(r.Intn(9)), Timestamp: ts}
 }
 
-func vcHint(st sm.State, b blkT) (h string) {
-	defer func() {
-		if r := recover(); r != nil {
-			h = "panic"
-		}
-	}()
-	if b.LC.Nil || b.H == st.InitialHeight {
-		return "ok"
+// per slot of the commit: does the real ed25519 accept the signature under the validator at that
+// position of LastValidators over the canonical vote of the slot (what VerifyCommit checks)
+func sigokHint(st sm.State, b blkT) string {
+	if b.LC.Nil || len(b.LC.Sigs) == 0 || st.LastValidators == nil {
+		return "."
 	}
-	return vcClass(st.LastValidators.VerifyCommit(st.ChainID, st.LastBlockID, b.H-1, realCommit(b.LC)))
+	c := realCommit(b.LC)
+	out := make([]byte, len(c.Signatures))
+	for i := range c.Signatures {
+		out[i] = '-'
+		if c.Signatures[i].Absent() || i >= len(st.LastValidators.Validators) {
+			continue
+		}
+		func() {
+			defer func() {
+				if r := recover(); r != nil {
+					out[i] = '0'
+				}
+			}()
+			if st.LastValidators.Validators[i].PubKey.VerifySignature(c.VoteSignBytes(st.ChainID, int32(i)), c.Signatures[i].Signature) {
+				out[i] = '1'
+			} else {
+				out[i] = '0'
+			}
+		}()
+	}
+	return string(out)
 }
 
 func flip(b []byte, r *rand.Rand) []byte {
@@ -1499,7 +1516,7 @@ func (g *gen) perturbations(st sm.State, b blkT) []pert {
 }
 
 func (g *gen) blockOp(st sm.State, b blkT, extra string) string {
-	return "block " + b.toks() + " vc=" + vcHint(st, b) + " wt=" + wtHint(st, b.LC) + extra
+	return "block " + b.toks() + " sigok=" + sigokHint(st, b) + " wt=" + wtHint(st, b.LC) + extra
 }
 
 func (g *gen) txs(n int) [][]byte {
@@ -1650,12 +1667,12 @@ func (g *gen) chain(tier string, kind string) core.Case {
 			if len(st.AppHash) > 32 {
 				budget = " budget=exempt"
 			}
-			g.emit(fmt.Sprintf("create h=%d pool=%s ev=%s prop=%s lc=%s vc=%s evadm=1 expect=%s scn=%s%s", h, hxList(pool), showEvs(evs), hx(prop),
-				showCommit(lc), vcHint(st, blkT{H: h, LC: lc}), exp(map[bool]string{true: "ok", false: "any"}[scn == "honest"]), cscn, budget))
+			g.emit(fmt.Sprintf("create h=%d pool=%s ev=%s prop=%s lc=%s sigok=%s evadm=1 expect=%s scn=%s%s", h, hxList(pool), showEvs(evs), hx(prop),
+				showCommit(lc), sigokHint(st, blkT{H: h, LC: lc}), exp(map[bool]string{true: "ok", false: "any"}[scn == "honest"]), cscn, budget))
 		}
 		// the proposer's block
-		mk := fmt.Sprintf("make h=%d txs=%s ev=%s prop=%s lc=%s vc=%s evadm=1 expect=%s scn=%s byzw=%d totw=%d wt=%s%s", h, hxList(txs), showEvs(evs), hx(prop), showCommit(lc),
-			vcHint(st, blkT{H: h, LC: lc}), exp(mkExpect), scn, byzw, totw, wtHint(st, lc), mkPert)
+		mk := fmt.Sprintf("make h=%d txs=%s ev=%s prop=%s lc=%s sigok=%s evadm=1 expect=%s scn=%s byzw=%d totw=%d wt=%s%s", h, hxList(txs), showEvs(evs), hx(prop), showCommit(lc),
+			sigokHint(st, blkT{H: h, LC: lc}), exp(mkExpect), scn, byzw, totw, wtHint(st, lc), mkPert)
 		g.emit(mk)
 		var rtxs []types.Tx
 		for _, t := range txs {
@@ -1687,8 +1704,8 @@ func (g *gen) chain(tier string, kind string) core.Case {
 			// chain continues with an honest commit instead
 			commit = g.commitFor(st, "honest")
 			lc = opCommit(commit)
-			g.emit(fmt.Sprintf("make h=%d txs=%s ev=%s prop=%s lc=%s vc=%s evadm=1 expect=ok scn=honest wt=%s", h, hxList(txs), showEvs(evs), hx(prop), showCommit(lc),
-				vcHint(st, blkT{H: h, LC: lc}), wtHint(st, lc)))
+			g.emit(fmt.Sprintf("make h=%d txs=%s ev=%s prop=%s lc=%s sigok=%s evadm=1 expect=ok scn=honest wt=%s", h, hxList(txs), showEvs(evs), hx(prop), showCommit(lc),
+				sigokHint(st, blkT{H: h, LC: lc}), wtHint(st, lc)))
 			blk, parts = st.MakeBlock(h, rtxs, commit, realEvs(evs), prop)
 			b = opBlock(blk)
 		}
@@ -1831,8 +1848,8 @@ func (g *gen) chain(tier string, kind string) core.Case {
 		if len(updS) > 0 {
 			changed = 1
 		}
-		g.emit(fmt.Sprintf("apply bid=%s res=%s valupd=%s changed=%d nvals=%s pu=%s apph=%s vc=%s expect=%s", showBID(bid), res, upd, changed, nvals, pu,
-			hx(sc.AppHash), vcHint(st, b), expect))
+		g.emit(fmt.Sprintf("apply bid=%s res=%s valupd=%s changed=%d nvals=%s pu=%s apph=%s sigok=%s expect=%s", showBID(bid), res, upd, changed, nvals, pu,
+			hx(sc.AppHash), sigokHint(st, b), expect))
 		// hostile state edits between heights (the chain then usually stops validating; that is the point)
 		if kind == "hostile" && r.Intn(3) == 0 {
 			f := []string{"lbh", "ih", "lbt", "apph", "lrh", "chain", "va", "vb", "lbid", "maxbytes", "evmax"}[r.Intn(11)]
